@@ -409,7 +409,10 @@ fn run_compress(c: &CompressCase, rec: &mut CaseRec) -> Result<(), String> {
         if !c.stdin {
             l2::write_file(&work.join("in.src"), &source);
         }
-        if c.force_over_existing {
+        // the existing file that --force-create replaces is either unrelated content or (a function of the case) the very
+        // archive this command is about to produce: re-compressing an unchanged source over its own archive
+        let same_archive = c.force_over_existing && c.stale_tmp.is_none() && blake2_64(&[&case_salt().to_le_bytes(), b"recompress"]) % 3 == 0;
+        if c.force_over_existing && !same_archive {
             l2::write_file(&work.join(out_name), b"previous archive content");
         }
         // the CLI derives the temp path from the output path: Path::with_extension(output, ".tmp")
@@ -434,6 +437,14 @@ fn run_compress(c: &CompressCase, rec: &mut CaseRec) -> Result<(), String> {
             }
         }
         args.push(out);
+        if same_archive {
+            let first: Vec<String> = args.iter().filter(|a| a.as_str() != "--force-create").cloned().collect();
+            let pre = l2::run_bita(&work, &l2::RunSpec { args: first.clone(), stdin: if c.stdin { Some(source.clone()) } else { None }, env: vec![("TMPDIR".to_string(), tmp.display().to_string())], ..Default::default() });
+            if !pre.ok() {
+                return Err(format!("bita compress (first of two) failed: {} {:?}", pre.describe(), first));
+            }
+            rec.class("recompress_of_the_unchanged_source_over_its_own_archive");
+        }
         let before = tree(&dir);
         let so = dir.join("strace.out");
         let spec = l2::RunSpec {
@@ -554,7 +565,7 @@ impl Prop for C16 {
     }
     fn meta(&self, _tier: Tier) -> Meta {
         Meta {
-            rule: "cases = the real CLI under `strace -f -y` (file-opening, creating, removing, renaming, truncating syscalls): clone in all modes (local / HTTP archive, seed files, stdin seed, new output / overwrite / --seed-output / block device via hook, output in the working directory / an existing sub-directory / below a directory that does not exist, +-verify-output, +-verify-header) and compress configurations (file / stdin input, +-force over an existing archive, metadata files, output names with no / several extensions or in a sub-directory). Oracle: for clone the set of paths opened for writing / created / truncated is a subset of {output}, nothing is unlinked, renamed, mkdir'ed or linked, and the archive and seeds are opened read-only; for compress writes go only to the archive and to temporary files (= paths the process itself created and removed again). Recursive directory listings (work dir and $TMPDIR) before/after: clone adds at most the output, a successful compress adds exactly the archive. Every case is non-trivial; distinct by Blake2 of the canonical case; the (command, mode) combinations reached are listed in 'classes'. If ptrace is refused at run time the check falls back to the directory-listing oracle and says so ('listing_only_no_ptrace').".into(),
+            rule: "cases = the real CLI under `strace -f -y` (file-opening, creating, removing, renaming, truncating syscalls): clone in all modes (local / HTTP archive, seed files, stdin seed, new output / overwrite / --seed-output / block device via hook, output in the working directory / an existing sub-directory / below a directory that does not exist, +-verify-output, +-verify-header) and compress configurations (file / stdin input, +-force over an existing file (unrelated content, or the very archive the command is about to produce), metadata files, output names with no / several extensions or in a sub-directory). Oracle: for clone the set of paths opened for writing / created / truncated is a subset of {output}, nothing is unlinked, renamed, mkdir'ed or linked, and the archive and seeds are opened read-only; for compress writes go only to the archive and to temporary files (= paths the process itself created and removed again). Recursive directory listings (work dir and $TMPDIR) before/after: clone adds at most the output, a successful compress adds exactly the archive. Every case is non-trivial; distinct by Blake2 of the canonical case; the (command, mode) combinations reached are listed in 'classes'. If ptrace is refused at run time the check falls back to the directory-listing oracle and says so ('listing_only_no_ptrace').".into(),
             assumptions: vec!["/dev/null, /dev/tty, /proc, /sys, pipes and sockets are ignored; failed syscalls have no effect and are ignored".into()],
             ..Meta::default()
         }
